@@ -22,7 +22,7 @@ def env(what, at, x=0, id="", gap=0): return dict(at=at, what=what, x=x, **{"asy
 def cache(id, key="k", ifc=()): return dict(k="cache", id=id, key=key, ifc=list(ifc))
 
 
-def scenario(stack, fns, envs, tld=0, async_fix=None, unit_ns=1_000_000, default=None, readers=False):
+def scenario(stack, fns, envs, tld=0, async_fix=None, unit_ns=1_000_000, default=None, readers=False, noctx=False):
     nx = max([e["x"] for e in envs if e["what"] == "Start"] + [1])
     bhmax = {d["id"]: d["max"] for d in stack if d["k"] == "bh"}
     # env("CtxDeadline", t, x): the context execution x is started with carries a deadline at instant t (no action of the controller)
@@ -30,7 +30,7 @@ def scenario(stack, fns, envs, tld=0, async_fix=None, unit_ns=1_000_000, default
     envs = [dict(e, dl=dls[e["x"]]) if e["what"] == "Start" and e["x"] in dls else e for e in envs if e["what"] != "CtxDeadline"]
     envs = sorted(envs, key=lambda e: e["at"])
     return dict(stack=stack, fns=fns, fnDefault=default or fn(0, "R2"), env=envs, nx=nx, tld=tld,
-                asyncFix=ASYNC_FIX if async_fix is None else async_fix, bhmax=bhmax, unit_ns=unit_ns, readers=readers)
+                asyncFix=ASYNC_FIX if async_fix is None else async_fix, bhmax=bhmax, unit_ns=unit_ns, readers=readers, noctx=noctx)
 
 
 def async_fix_in_code():
